@@ -37,3 +37,113 @@ Proof. split; reflexivity. Qed.
 Print Assumptions tie_pair_with_indices.
 Print Assumptions code_with_indices_spec.
 Print Assumptions code_pair_accessors.
+
+(* ------------------------------------------------------------------ *)
+(* Pair::with_ranker: the `for (i, &b) in needle.iter().enumerate().take(255).skip(2)` scan *)
+From Memchr Require Import Params.
+
+Definition enc (st : pstate) : N * N * N * N :=
+  (rare2 st, N.of_nat (index2 st), rare1 st, N.of_nat (index1 st)).
+
+Section Ranker.
+Variable rank : N -> N.
+
+(* the translated loop body, as it appears (twice) in rs_Pair_with_ranker *)
+Definition gstep : N * N * N * N -> N * N -> res (N * N * N * N) :=
+  fun '(r2, i2, r1, i1) '(i, b) =>
+    if rank b <? rank r1
+    then t <-- (if i <=? tmax 8 then Ok i else Panic UnwrapNone);; Ok (r1, i1, b, t)
+    else if (negb (b =? r1) && (rank b <? rank r2))%bool
+         then t <-- (if i <=? tmax 8 then Ok i else Panic UnwrapNone);; Ok (b, t, r1, i1)
+         else Ok (r2, i2, r1, i1).
+
+Lemma gstep_tie st (i : nat) b :
+  gstep (enc st) (N.of_nat i, b) = rmap enc (pair_step rank st i b).
+Proof.
+  unfold gstep, enc, pair_step, to_u8. destruct st as [r1 i1 r2 i2]. cbn [rare1 rare2 index1 index2].
+  assert (E : (N.of_nat i <=? tmax 8) = (i <=? 255)%nat).
+  { change (tmax 8) with 255. destruct (N.leb_spec (N.of_nat i) 255); destruct (Nat.leb_spec i 255); lia. }
+  rewrite E.
+  destruct (rank b <? rank r1); [destruct (i <=? 255)%nat; reflexivity|].
+  destruct (negb (b =? r1) && (rank b <? rank r2))%bool; [destruct (i <=? 255)%nat; reflexivity|reflexivity].
+Qed.
+
+Lemma scan_tie : forall l (i : nat) st,
+  rfold gstep (skipn (2 - i) (firstn (255 - i) (enumerate_from (N.of_nat i) l))) (enc st)
+  = rmap enc (pair_scan rank l i st).
+Proof.
+  induction l as [|b t IH]; intros i st.
+  - cbn [enumerate_from pair_scan]. rewrite firstn_nil, skipn_nil. reflexivity.
+  - cbn [enumerate_from pair_scan]. change pair_scan_cap with 255. change pair_scan_skip with 2%nat.
+    destruct (N.ltb_spec (N.of_nat i) 255) as [Hc|Hc].
+    + replace (255 - i)%nat with (S (254 - i)) by lia. cbn [firstn].
+      replace (N.of_nat i + 1) with (N.of_nat (S i)) by lia.
+      destruct (Nat.ltb_spec i 2) as [Hs|Hs].
+      * replace (2 - i)%nat with (S (1 - i)) by lia. cbn [skipn].
+        replace (1 - i)%nat with (2 - S i)%nat by lia. replace (254 - i)%nat with (255 - S i)%nat by lia.
+        apply IH.
+      * replace (2 - i)%nat with 0%nat by lia. cbn [skipn rfold].
+        rewrite gstep_tie. destruct (pair_step rank st i b) as [st'|p]; cbn [rmap]; [|reflexivity].
+        replace (254 - i)%nat with (255 - S i)%nat by lia.
+        specialize (IH (S i) st'). replace (2 - S i)%nat with 0%nat in IH by lia. exact IH.
+    + replace (255 - i)%nat with 0%nat by lia. cbn [firstn]. rewrite skipn_nil. reflexivity.
+Qed.
+
+Definition pair_res (o : option Pair) : option (nat * nat) := option_map pair_of o.
+
+Theorem tie_pair_with_ranker (x : list N) :
+  res_sim (rmap pair_res (rs_Pair_with_ranker x rank)) (fst (pair_with_ranker rank x)).
+Proof.
+  unfold rs_Pair_with_ranker, pair_with_ranker.
+  destruct (N.leb_spec (N.of_nat (length x)) 1) as [Hl|Hl];
+    destruct (Nat.leb_spec (length x) 1) as [Hl'|Hl']; try lia; [reflexivity|].
+  unfold idx_chk. change (N.to_nat 0) with 0%nat. change (N.to_nat 1) with 1%nat.
+  rewrite fst_bind. cbn [lift fst].
+  destruct (idx x 0) as [r1|p]; [|exact I]. cbn [rbind].
+  rewrite fst_bind. cbn [lift fst].
+  destruct (idx x 1) as [r2|p]; [|exact I]. cbn [rbind fst snd].
+  change (N.to_nat 2) with 2%nat. change (N.to_nat (tmax 8)) with 255%nat.
+  fold gstep.
+  assert (Hscan : forall st0,
+    res_sim (rmap pair_res
+               (acc <-- rfold gstep (skipn 2 (firstn 255 (enumerate_l x))) (enc st0);;
+                let '(_, i2, _, i1) := acc in
+                if negb (i1 =? i2) then Ok (Some (mkPair i1 i2)) else Panic (AssertFail 0)))
+            (fst (st <- lift (pair_scan rank x 0 st0);;
+                  guard 1 (negb (index1 st =? index2 st)%nat);;; ret (Some (index1 st, index2 st))))).
+  { intros st0. pose proof (scan_tie x 0 st0) as H. cbn [Nat.sub N.of_nat] in H. unfold enumerate_l. rewrite H.
+    rewrite fst_bind. cbn [lift fst].
+    destruct (pair_scan rank x 0 st0) as [st|p]; cbn [rmap rbind]; [|exact I].
+    unfold enc.
+    destruct (N.eqb_spec (N.of_nat (index1 st)) (N.of_nat (index2 st))) as [He|He];
+      destruct (Nat.eqb_spec (index1 st) (index2 st)) as [He'|He']; try lia; cbn [negb].
+    - exact I.
+    - cbn. unfold pair_of. cbn. rewrite !Nat2N.id. reflexivity. }
+  destruct (rank r2 <? rank r1).
+  - exact (Hscan {| rare1 := r2; index1 := 1; rare2 := r1; index2 := 0 |}).
+  - exact (Hscan {| rare1 := r1; index1 := 0; rare2 := r2; index2 := 1 |}).
+Qed.
+End Ranker.
+
+Print Assumptions tie_pair_with_ranker.
+
+(* C19 stated on the TRANSLATED Pair::with_ranker, for every pure ranker and every needle:
+   None exactly below two bytes, otherwise two distinct offsets inside the needle, both <= 254 *)
+From Memchr Require Import Props.C19.
+
+Theorem code_with_ranker_spec (rank : N -> N) (x : list N) :
+  ((length x <= 1)%nat -> rs_Pair_with_ranker x rank = Ok None) /\
+  ((2 <= length x)%nat ->
+   exists p, rs_Pair_with_ranker x rank = Ok (Some p) /\
+     Pair_index1 p <> Pair_index2 p /\ Pair_index1 p < N.of_nat (length x) /\ Pair_index2 p < N.of_nat (length x) /\
+     Pair_index1 p <= 254 /\ Pair_index2 p <= 254).
+Proof.
+  destruct (C19_with_ranker rank x) as [H1 H2]. pose proof (tie_pair_with_ranker rank x) as T.
+  split; intros H.
+  - rewrite (H1 H) in T. destruct (rs_Pair_with_ranker x rank) as [[p|]|]; cbn in T; try contradiction; [discriminate|reflexivity].
+  - destruct (H2 H) as (i1 & i2 & Hr & A & B & C & D & E). rewrite Hr in T.
+    destruct (rs_Pair_with_ranker x rank) as [[p|]|]; cbn in T; try contradiction; try discriminate.
+    exists p. split; [reflexivity|]. unfold pair_of in T. injection T as T1 T2. lia.
+Qed.
+
+Print Assumptions code_with_ranker_spec.
